@@ -301,8 +301,15 @@ func (c *Contracts) LoadContractFile(path, pkgPrefix string, trusted bool) error
 			} else if strings.HasPrefix(sub, "decreases") {
 				kind = "decreases"
 				sub = strings.TrimSpace(strings.TrimPrefix(sub, "decreases"))
+			} else if strings.HasPrefix(sub, "exhaustive") {
+				// loop#k exhaustive [label]: the loop is left only through its own condition (no break, no return inside)
+				kind = "exhaustive"
+				sub = strings.TrimSpace(strings.TrimPrefix(sub, "exhaustive"))
+				if !strings.Contains(sub, "]") || strings.HasSuffix(sub, "]") {
+					sub += " true"
+				}
 			} else {
-				return fmt.Errorf("%s:%d: loop clause must be invariant or decreases", path, l.no)
+				return fmt.Errorf("%s:%d: loop clause must be invariant, decreases or exhaustive", path, l.no)
 			}
 			cl, err := mkClause(kind, sub)
 			if err != nil {
